@@ -8,7 +8,7 @@ import re
 
 from ..core import Checker, Rule, attr_calls, callee_is, calls_in, kwarg, resolved_calls, short
 from ..interp import Pins, find_nodes, unparse
-from .util import ancestors, effect_table, enclosing_loop, enclosing_stmt, enum_members, every_iteration_reaches, fmt, inline_displays, is_const, parent, parents, returns_of, same, self_attr_for_param, single_def, contributions, resolved
+from .util import ancestors, on_path_before, effect_table, enclosing_loop, enclosing_stmt, enum_members, every_iteration_reaches, fmt, inline_displays, is_const, parent, parents, returns_of, same, self_attr_for_param, single_def, contributions, resolved
 
 P14 = ("C14", "C01", "C06")
 G = "math_simplification:Goebner"
@@ -80,17 +80,26 @@ def r_sign_handling(ck: Checker) -> None:
         neg = it.texts(calls[0], calls[0].args[1])
         ck.add(f"{callee}: operator is negated iff the literal's sign is Negation", neg == {f"{a}.sign == Sign.Negation"}, func, calls[0], f"neg argument {sorted(neg)}", "`not X < 3` is X >= 3; `not not X < 3` is X < 3")
     cmp_ = ck.func(f"{G}._to_sympy_comparison")
-    d = single_def(cmp_, "op")
     c, neg = cmp_.params()[1], cmp_.params()[2]
-    ck.add("comparison: op = negate_comparison(op) if neg else op", d is not None and unparse(d).replace(" ", "") == f"negate_comparison({c}[1])if{neg}else{c}[1]", cmp_, cmp_.node, f"op = `{unparse(d) if d is not None else None}`", "")
+    ceq = resolved_calls(ck.prg, cmp_, f"ngo.{G}._to_equality")
+    ck.need(len(ceq) == 1, "the comparison is translated at one site")
+    got_c = {}
+    for flag in (True, False):
+        itf = ck.interp(cmp_, Pins.of(facts={neg: flag}))
+        got_c[flag] = {t.replace(" ", "") for t in itf.texts(ceq[0], ceq[0].args[1])} if itf.reachable(ceq[0]) else None
+    ck.add("comparison: op = negate_comparison(op) if neg else op", got_c[True] == {f"negate_comparison({c}[1])"} and got_c[False] == {f"{c}[1]"}, cmp_, ceq[0], f"operator under neg: {got_c[True]}, otherwise: {got_c[False]}", "")
     agg = ck.func(f"{G}._to_sympy_bodyaggregate")
     ita = ck.interp(agg)
     ag, ng = agg.params()[1], agg.params()[2]
     eqs = resolved_calls(ck.prg, agg, f"ngo.{G}._to_equality")
     ck.need(len(eqs) == 2, "left and right guard are translated")
     for call, side in zip(eqs, ("left", "right")):
-        ops = {t.replace(" ", "") for t in ita.texts(call, call.args[1])}
-        ck.add(f"aggregate {side} guard: operator negated iff neg", ops == {f"negate_comparison({ag}.{side}_guard.comparison)if{ng}else{ag}.{side}_guard.comparison"}, agg, call, f"operator {sorted(ops)}", "")
+        got = {}
+        for flag in (True, False):
+            itf = ck.interp(agg, Pins.of(facts={ng: flag}))
+            got[flag] = {t.replace(" ", "") for t in itf.texts(call, call.args[1])} if itf.reachable(call) else None
+        ok_s = got[False] == {f"{ag}.{side}_guard.comparison"} and got[True] in (None, {f"negate_comparison({ag}.{side}_guard.comparison)"}) and not (side == "left" and got[True] is None)
+        ck.add(f"aggregate {side} guard: operator negated iff neg", ok_s, agg, call, f"operator under neg: {got[True]}, otherwise: {got[False]}", "")
     ck.guard("a negated aggregate with two guards is not translated", agg, eqs[0], f"not ({ng} and {ag}.right_guard)", "not (l <= agg <= u) is a disjunction, which a set of polynomial equalities cannot express")
     dm = resolved_calls(ck.prg, agg, "sympy.Dummy")
     ck.need(len(dm) == 1, "one placeholder per aggregate")
@@ -204,16 +213,23 @@ def r_merge(ck: Checker) -> None:
     ck.need(len(rets) == 1, "combine returns the five-tuple at one site")
     # the relations list is edited inside the accepting branch, which makes the engine forget what it knew about values read
     # from it before; rel1 / rel2 / agg_common themselves are not rebound there, so the test is evaluated at the branch entry
-    gate = next((a for a in ancestors(comb, rets[0]) if isinstance(a, ast.If) and any(rets[0] is x for s in a.body for x in ast.walk(s))), None)
-    ck.need(gate is not None, "the five-tuple is returned inside the accepting branch")
-    rebound = {n.id for s in gate.body for n in ast.walk(s) if isinstance(n, ast.Name) and isinstance(n.ctx, ast.Store)}  # type: ignore[union-attr]
-    entry = gate.body[0]  # type: ignore[union-attr]
+    path = sorted(on_path_before(comb, rets[0]), key=lambda s: (s.lineno, s.col_offset)) + [rets[0]]
+
+    def established(cond: str, names: set[str]) -> bool:
+        """cond holds at some statement on the way to the return, and none of `names` is rebound from there on"""
+        for i, stmt in enumerate(path):
+            if itc.reachable(stmt) and itc.holds(stmt, cond):
+                later = {n.id for s in path[i:] for n in ast.walk(s) if isinstance(n, ast.Name) and isinstance(n.ctx, ast.Store)}
+                if not (names & later):
+                    return True
+        return False
+
     for rel in ("rel1", "rel2"):
         cond = f"len((set({rel}.free_symbols) - agg_common).intersection(self._sym2agg.keys())) == 0"
-        okc = itc.holds(entry, cond) and not ({rel, "agg_common"} & rebound)
+        okc = established(cond, {rel, "agg_common"})
         ck.add(f"two guards are merged only if {rel} has no aggregate besides the common ones", okc, comb, rets[0], f"`{fmt(rets[0])}` dominated by `{cond}`: {okc}",
                "the merged relation uses one middle term for both guards: with a further aggregate in one of them `Y >= 1` becomes `W + Y >= 1`")
-    okc = itc.holds(entry, "common") and "common" not in rebound
+    okc = established("common", {"common"})
     ck.add("... and only if they share a term", okc, comb, rets[0], f"dominated by `common`: {okc}", "")
     mul = ck.func(f"{G}.new_mul")
     itm = ck.interp(mul)
